@@ -97,6 +97,9 @@ func (m *Mutex) Lock() {
 		return
 	}
 	m.sync(s)
+	if t != nil && t.Killed() {
+		return // a reaped task is unwinding: its deferred calls must not block or schedule
+	}
 	if t == nil {
 		if m.isLocked() {
 			panic("simsync: pass-through Mutex.Lock would block forever (lock left held)")
@@ -118,6 +121,9 @@ func (m *Mutex) TryLock() bool {
 		return m.real.TryLock()
 	}
 	m.sync(s)
+	if t != nil && t.Killed() {
+		return false // a reaped task is unwinding: its deferred calls must not block or schedule
+	}
 	if t != nil {
 		s.Park(t, simrt.OpTry, nil)
 	}
@@ -141,6 +147,9 @@ func (m *Mutex) Unlock() {
 		return
 	}
 	m.sync(s)
+	if t != nil && t.Killed() {
+		return // a reaped task is unwinding: its deferred calls must not block or schedule
+	}
 	if !m.isLocked() {
 		if t != nil && t.Killed() {
 			return
@@ -224,6 +233,9 @@ func (m *RWMutex) Lock() {
 		return
 	}
 	m.sync(s)
+	if t != nil && t.Killed() {
+		return // a reaped task is unwinding: its deferred calls must not block or schedule
+	}
 	if t == nil {
 		inner, _, _, readers := m.get()
 		if inner || readers != 0 {
@@ -250,6 +262,9 @@ func (m *RWMutex) TryLock() bool {
 		return m.real.TryLock()
 	}
 	m.sync(s)
+	if t != nil && t.Killed() {
+		return false // a reaped task is unwinding: its deferred calls must not block or schedule
+	}
 	if t != nil {
 		s.Park(t, simrt.OpTry, nil)
 	}
@@ -274,6 +289,9 @@ func (m *RWMutex) Unlock() {
 		return
 	}
 	m.sync(s)
+	if t != nil && t.Killed() {
+		return // a reaped task is unwinding: its deferred calls must not block or schedule
+	}
 	if _, _, held, _ := m.get(); !held {
 		if t != nil && t.Killed() {
 			// a reaped task may have announced without acquiring: withdraw
@@ -296,6 +314,9 @@ func (m *RWMutex) RLock() {
 		return
 	}
 	m.sync(s)
+	if t != nil && t.Killed() {
+		return // a reaped task is unwinding: its deferred calls must not block or schedule
+	}
 	if t == nil {
 		if _, announced, _, _ := m.get(); announced {
 			panic("simsync: pass-through RWMutex.RLock would block forever (lock left held)")
@@ -317,6 +338,9 @@ func (m *RWMutex) TryRLock() bool {
 		return m.real.TryRLock()
 	}
 	m.sync(s)
+	if t != nil && t.Killed() {
+		return false // a reaped task is unwinding: its deferred calls must not block or schedule
+	}
 	if t != nil {
 		s.Park(t, simrt.OpTry, nil)
 	}
@@ -336,6 +360,9 @@ func (m *RWMutex) RUnlock() {
 		return
 	}
 	m.sync(s)
+	if t != nil && t.Killed() {
+		return // a reaped task is unwinding: its deferred calls must not block or schedule
+	}
 	if _, _, held, readers := m.get(); readers <= 0 || held {
 		if t != nil && t.Killed() {
 			return
@@ -419,6 +446,9 @@ func (c *Cond) Wait() {
 		return
 	}
 	c.sync(s)
+	if t != nil && t.Killed() {
+		return // a reaped task is unwinding: its deferred calls must not block or schedule
+	}
 	if t == nil {
 		panic("simsync: pass-through Cond.Wait would block forever")
 	}
@@ -436,6 +466,9 @@ func (c *Cond) Signal() {
 		return
 	}
 	c.sync(s)
+	if t != nil && t.Killed() {
+		return // a reaped task is unwinding: its deferred calls must not block or schedule
+	}
 	if t != nil {
 		s.Park(t, simrt.OpSignal, nil)
 	}
@@ -450,6 +483,9 @@ func (c *Cond) Broadcast() {
 		return
 	}
 	c.sync(s)
+	if t != nil && t.Killed() {
+		return // a reaped task is unwinding: its deferred calls must not block or schedule
+	}
 	if t != nil {
 		s.Park(t, simrt.OpSignal, nil)
 	}
@@ -492,6 +528,9 @@ func (w *WaitGroup) Add(delta int) {
 		return
 	}
 	w.sync(s)
+	if t != nil && t.Killed() {
+		return // a reaped task is unwinding: its deferred calls must not block or schedule
+	}
 	if t != nil {
 		s.Park(t, simrt.OpSignal, nil)
 	}
@@ -525,6 +564,9 @@ func (w *WaitGroup) Wait() {
 		return
 	}
 	w.sync(s)
+	if t != nil && t.Killed() {
+		return // a reaped task is unwinding: its deferred calls must not block or schedule
+	}
 	if t == nil {
 		if w.add(0) != 0 {
 			panic("simsync: pass-through WaitGroup.Wait would block forever")
